@@ -194,3 +194,6 @@ mod unicodetables;
 
 #[cfg(feature = "backend-pikevm")]
 mod pikevm;
+
+#[cfg(regress_verif)]
+pub mod verif;
